@@ -141,7 +141,7 @@ def ref_argv(exe, fields, values, append_args):
         chunks.append({"name": f["name"], "cls": pos_class(f), "idx": idx, "position": f.get("position"),
                        "args": args, "elems": elems, "value": v, "kind": f["kind"],
                        "ellipsis": f["kind"] == "list" and f["argstr"].endswith("..."),
-                       "templated": "{" in f["argstr"],
+                       "templated": "{" in f["argstr"], "argstr": f["argstr"],
                        "units": [{"args": a, "value": uv} for a, uv in units]})
     argv = list(exe)
     for c in chunks:
